@@ -481,7 +481,10 @@ def _emit_fn(unit, fs, it, out, rules):
             p = pat_of(anchor)
             s = find_seq(toks, bo + 1, bc, p, k_)
             if s is None:
+                if where.endswith("_opt"):
+                    continue
                 raise ExtractError("%s: anchor `%s` (#%d) not found" % (fs.qual, anchor, k_))
+            where = where.replace("_opt", "")
             if where == "before":
                 ed.ins_before(s, "\n" + text + "\n")
             elif where == "after":
